@@ -39,6 +39,11 @@ pub enum PatchArchiveError {
         index: usize,
     },
 
+    /// A file entry carries 1 to 255 patches (the count is one byte, and 0
+    /// marks the end of a block)
+    #[error("file entry with {0} patches: must be 1 to 255")]
+    InvalidPatchCount(usize),
+
     /// String too long in patch entry
     #[error("string too long in patch entry")]
     StringTooLong,
